@@ -2413,9 +2413,26 @@ class Interp:
 
         @nf("range")
         def _range(it, a, k):
-            if any(isinstance(x, SInt) for x in a):
-                raise Unsupported("symbolic range")
-            return range(*a)
+            conc = []
+            for x in a:
+                if isinstance(x, SInt):
+                    # concretise (forks); values outside [-4, 64] are a stated bound
+                    val = None
+                    for c in range(0, 65):
+                        if I.ctx.decide(x.term == c):
+                            val = c
+                            break
+                    if val is None:
+                        for c in range(-1, -5, -1):
+                            if I.ctx.decide(x.term == c):
+                                val = c
+                                break
+                    if val is None:
+                        raise BoundHit("symbolic range() argument outside [-4, 64]")
+                    conc.append(val)
+                else:
+                    conc.append(x)
+            return range(*conc)
 
         @nf("enumerate")
         def _enumerate(it, a, k):
